@@ -317,6 +317,9 @@ func (w *World) NewClient(name string) *Client {
 	}
 	c.store = store
 	c.baseWG = tikv.VerifWGCount(store)
+	if c.baseWG < 0 {
+		w.Count("wg-count-unavailable")
+	}
 	w.cmu.Lock()
 	w.clients = append(w.clients, c)
 	w.cmu.Unlock()
